@@ -15,7 +15,7 @@ for _p in PENDING:
 NOT_DECIDED = {}
 
 # which engines a property uses
-USES_KANI = set()
+USES_KANI = {'C01', 'C03', 'C10'}
 
 _V = 'Verus obligations (requires/ensures/invariants spliced into the extracted real functions) discharged by Z3'
 META = {
